@@ -336,10 +336,30 @@ CLAIMED["C02"] = dict(
          "the verified expansion orders. One genuine defect (absolute equality test in Fa/Fb) was repaired.",
     ref="3 C02")
 
+CLAIMED["C03"] = dict(
+    category="other",
+    technique="symbolic folding of the one-loop functions into exact rational functions of the reported mixing-matrix "
+              "elements, masses and Yukawa couplings (Eigen whole-array operations pushed down to elements, complex "
+              "conjugation as independent z/zbar atoms, loop functions as opaque atoms keyed by the value of their "
+              "argument) and polynomial-identity comparison with an independently written specification; typed-AST "
+              "rules for the decomposition calls and the parameter plumbing",
+    text="Decides the structural clause of C03 only: the value returned by amu1LChi0 / amu1LChipm is, as an identity "
+         "in every mixing-matrix element (ZN, UM, UP, ZM), mass, coupling and opaque loop-function value, the formula "
+         "of hep-ph/0609168 (46)-(51) (= arXiv:1311.1775 (2.11a,b) in another sign convention, written down "
+         "independently in the checker); thdm::amu1L is the flavour-summed scalar + pseudoscalar + charged-Higgs "
+         "expression minus the SM-Higgs term and amu1L_approx is Eq. (27)-(30) of arXiv:1607.06292; the spectrum "
+         "routines pair each mass matrix with the decomposition routine and output order whose contract the couplings "
+         "assume; calculate_amu_1loop(THDM) fills each struct field from the matching getter; the twelve Yukawa "
+         "getters follow the documented (h, H, A, H+) pattern entry by entry with masses and rho_f taken at their own "
+         "Higgs mass. A sign, index, conjugation or convention slip confined to e.g. negative M1 or to "
+         "generation-off-diagonal couplings breaks the identity for all inputs at once.",
+    note=TRUST + "NOT decided: the numerical agreement to 1e-8 with an independently diagonalised evaluation -- it "
+         "rests on the eigen-solvers (C12, not applicable) and on the loop functions (C01); the decomposition contracts "
+         "are taken from the documentation of gm2_linalg.hpp. The specification itself is part of the trusted base "
+         "(printed in rules_c03.py).",
+    ref="3 C03 (as built: 10.6)")
+
 NOT_APPLICABLE = {
-    "C03": "numerical agreement of one-loop results with an independent higher-precision evaluation over all "
-           "parameter points: depends on eigen-decomposition values; no code-shape clause of its own "
-           "(DESIGN.md section 5)",
     "C12": "factorisation/unitarity/ordering contracts of the matrix decompositions for all inputs are "
            "floating-point properties of Eigen's iterative solvers; no sound static argument in reach "
            "(DESIGN.md section 5)",
